@@ -324,7 +324,8 @@ func genCLIChain(r *Runner, rng *Rng, seq int) (Case, bool) {
 	}
 	// ---- single tampering ----
 	verifierKey := owner
-	tamper := rng.Pick([]string{"none", "none", "none", "product", "link", "layout", "wrongkey", "droplink", "renamelink", "extrafile"})
+	var extraKey *TestKey
+	tamper := rng.Pick([]string{"none", "none", "none", "product", "link", "layout", "wrongkey", "extrawrongkey", "extrawrongkey", "droplink", "renamelink", "extrafile"})
 	feat = append(feat, "tamper:"+tamper)
 	linkFiles, _ := filepath.Glob(filepath.Join(linkDirArg, "*.link"))
 	sort.Strings(linkFiles)
@@ -377,6 +378,10 @@ func genCLIChain(r *Runner, rng *Rng, seq int) (Case, bool) {
 		os.WriteFile(signedPath, []byte(s), 0o644)
 	case "wrongkey":
 		verifierKey = pool()[8]
+	case "extrawrongkey":
+		// the right layout key AND a key that never signed the layout: every key given with
+		// --layout-keys must have signed, in either wrapper (seeded change c20-dsse-layout-keys-any-of)
+		extraKey = pool()[8]
 	case "droplink":
 		if len(linkFiles) > 0 {
 			os.Remove(linkFiles[rng.Intn(len(linkFiles))])
@@ -435,10 +440,27 @@ func genCLIChain(r *Runner, rng *Rng, seq int) (Case, bool) {
 	}
 	vk := keyJSON(verifierKey, false)
 	vk["mapkey"] = verifierKey.ID
+	vkeys := []any{vk}
+	pubPEM := func(k *TestKey) string {
+		der, _ := x509.MarshalPKIXPublicKey(k.Signer.Public())
+		return string(pem.EncodeToMemory(&pem.Block{Type: "PUBLIC KEY", Bytes: der}))
+	}
+	morePEMs := []any{}
+	if extraKey != nil {
+		w.addKeyMaterial(keyJSON(extraKey, false))
+		ek := keyJSON(extraKey, false)
+		ek["mapkey"] = extraKey.ID
+		if rng.Bool() {
+			vkeys = append(vkeys, ek)
+		} else {
+			vkeys = []any{ek, vk}
+		}
+		morePEMs = append(morePEMs, pubPEM(extraKey))
+	}
 	fs := readTree(work)
 	vpubDER, _ := x509.MarshalPKIXPublicKey(verifierKey.Signer.Public())
 	args := map[string]any{
-		"layout_text": string(layoutText), "keys": []any{vk}, "dir": map[string]any{"files": dirFiles, "subs": map[string]any{}}, "step_name": "",
+		"layout_text": string(layoutText), "keys": vkeys, "more_verifier_pub_pems": morePEMs, "dir": map[string]any{"files": dirFiles, "subs": map[string]any{}}, "step_name": "",
 		"params": map[string]any{}, "caller_inters": ci, "honest": tamper == "none", "entry": "plain", "rundir_state": "ok", "rundir": "", "marker": marker,
 		"fs": fs.contents(), "fs_digests": fs.digests(), "line_norm": false, "world": w.JSON(), "now_ns": int64(0),
 		"verifier_pub_pem": string(pem.EncodeToMemory(&pem.Block{Type: "PUBLIC KEY", Bytes: vpubDER})), "links_in_workdir": !metaFlag,
@@ -460,6 +482,15 @@ func cliverifyImpl(a map[string]any) any {
 	keyPath := filepath.Join(scratch(), "verifier.pub")
 	os.WriteFile(keyPath, []byte(str(a["verifier_pub_pem"])), 0o644)
 	vargs := []string{"verify", "-l", layoutPath, "-k", keyPath, "-d", linkDir}
+	for i, p := range anyStrs(a["more_verifier_pub_pems"]) {
+		kp := filepath.Join(scratch(), fmt.Sprintf("verifier%d.pub", i+1))
+		os.WriteFile(kp, []byte(p), 0o644)
+		if i%2 == 0 {
+			vargs = append(vargs, "-k", kp)
+		} else {
+			vargs = append([]string{"verify", "-k", kp}, vargs[1:]...)
+		}
+	}
 	for i, p := range anyStrs(a["caller_inters"]) {
 		ip := filepath.Join(scratch(), fmt.Sprintf("inter%d.pem", i))
 		os.WriteFile(ip, []byte(p), 0o644)
@@ -610,7 +641,7 @@ func runC20(r *Runner, tier string, rng *Rng) {
 		batch = append(batch, Case{Op: "climatch", Args: map[string]any{"files": files, "products": products, "local": local}, Feat: fmt.Sprintf("clmp:%d:%d", len(files), len(products))})
 	}
 	flush()
-	r.St.Rule = "supply chains of 1-3 steps carried out by invoking the built binary: `run` or `record start`/`record stop` per step (with and without --use-dsse and a metadata directory, in a third of the chains with the working directory named by its absolute path plus several --lstrip-paths prefixes; a third of the Metablock steps are authorized by a certificate constraint and run with --key and --cert, with root / layout-intermediate / caller-intermediate chains), `key id` (compared with the independently computed id), `sign` and `sign --verify` (owner key and a foreign key), then one tampering out of {none, product, link, layout, wrong layout key, dropped link, renamed link, extra file}; all files are captured and `in-toto verify` (exit status) is compared with in-process library verification and with the model's verdict for the same files, and untampered histories must be ACCEPTED; `match-products` output and exit status vs the model. Class = (steps, modes, wrapper, tampering, verdict)."
+	r.St.Rule = "supply chains of 1-3 steps carried out by invoking the built binary: `run` or `record start`/`record stop` per step (with and without --use-dsse and a metadata directory, in a third of the chains with the working directory named by its absolute path plus several --lstrip-paths prefixes; a third of the Metablock steps are authorized by a certificate constraint and run with --key and --cert, with root / layout-intermediate / caller-intermediate chains), `key id` (compared with the independently computed id), `sign` and `sign --verify` (owner key and a foreign key), then one tampering out of {none, product, link, layout, wrong layout key, the right layout key plus one that never signed, dropped link, renamed link, extra file}; all files are captured and `in-toto verify` (exit status) is compared with in-process library verification and with the model's verdict for the same files, and untampered histories must be ACCEPTED; `match-products` output and exit status vs the model. Class = (steps, modes, wrapper, tampering, verdict)."
 }
 
 var _ = ed25519.Sign
